@@ -180,17 +180,16 @@ func runCase(line []byte, keepInput bool) (fmtResult, *fmtEvent) {
 	src0, gaps := render(toks, nil, lay)
 	src, _ := render(toks, b.Cm, lay)
 	cls := map[string]any{"fam": b.Fam, "focus": b.Focus, "opts": b.Cfg.opts(), "ncm": len(b.Cm)}
-	var gl, gm []string
+	var gl, gm, gs []string
 	for _, c := range b.Cm {
 		g := gaps[c.At-1]
 		gl = append(gl, g.N+"."+g.L)
 		gm = append(gm, c.M)
+		gs = append(gs, c.Sp)
 	}
 	cls["gap"] = strings.Join(gl, "+")
 	cls["marker"] = strings.Join(gm, "+")
-	if len(b.Cm) > 0 {
-		cls["sp"] = b.Cm[0].Sp
-	}
+	cls["sp"] = strings.Join(gs, "+")
 	res.Class = cls
 	res.Key = id
 	obs := fmtObs{Src: src}
